@@ -2442,11 +2442,11 @@ impl CanonicalizeContext {
 			if children.iter().all(|&child| {
 				is_pseudo_script(as_element(child))
 			}) {
-				let parent = get_parent(mrow);  // must exist
 				let is_first_child = mrow.preceding_siblings().is_empty();
 				if  is_first_child {
 					return mrow;	// FIX: what should happen
 				}
+				let parent = get_parent(mrow);  // must exist ('math' has no siblings, so it returned above)
 				if crate::xpath_functions::IsNode::is_scripted(&parent) {
 					return mrow;		// already in a script position
 				}
